@@ -189,12 +189,14 @@ def step_frame(gen, con, step):
                 con.inst["errors"].pop(r["ac"], None)
         if gen == 4:
             return con.f_std(0x2D, b"".join(R.b4_ac_status_record(r) for r in recs))
-        return con.f_std(0xC0, R.c0(0x23, 10, [R.b5_ac_status_record(r, 10) for r in recs]))
+        st = con.knobs.stride_ac
+        return con.f_std(0xC0, R.c0(0x23, st, [R.b5_ac_status_record(r, st) for r in recs]))
     if k == "zone_status":
         recs = [zone_record(gen, z) for z in step[1]]
         if gen == 4:
             return con.f_std(0x2B, b"".join(R.b4_group_status_record(r) for r in recs))
-        return con.f_std(0xC0, R.c0(0x21, 8, [R.b5_zone_status_record(r) for r in recs]))
+        st = con.knobs.stride_zone
+        return con.f_std(0xC0, R.c0(0x21, st, [R.b5_zone_status_record(r, st) for r in recs]))
     if k == "timers":
         tm = {}
         for ac, t in enumerate(step[1]):
@@ -282,14 +284,17 @@ def cases(tier, seed):
         yield {"seed": rnd.randrange(1 << 30), "n": rnd.randint(1, 40)}
 
 
-def run_one(gen, ai, steps):
-    """Run the abstract script on one generation; returns per-step results."""
+def run_one(gen, ai, steps, strides=(8, 10, 9)):
+    """Run the abstract script on one generation; returns per-step results.
+    strides: AT5 record lengths (zone status, AC status, timer status) of this console."""
     inst = compile_installation(gen, ai)
     results = []
     status = {}
 
     async def main(loop, net, log):
-        w = AW.ApiWorld(gen, loop, net, log, inst, C.Knobs(apply_commands=False))
+        w = AW.ApiWorld(gen, loop, net, log, inst,
+                        C.Knobs(apply_commands=False, stride_zone=strides[0],
+                                stride_ac=strides[1], stride_timer=strides[2]))
         ok = await w.init()
         status["init"] = ok
         if ok is not True:
@@ -339,7 +344,11 @@ def run_case(case):
     steps = gen_steps(rnd, ai, case["n"])
     viol, obs = [], {}
     r4, s4 = run_one(4, ai, steps)
-    r5, s5 = run_one(5, ai, steps)
+    # (an AT5 console of a later firmware announces longer records)
+    strides = (rnd.choice([8, 8, 10]), rnd.choice([10, 10, 8, 12]), rnd.choice([9, 9, 11, 12]))
+    r5, s5 = run_one(5, ai, steps, strides)
+    if strides != (8, 10, 9):
+        obs["at5_records_longer_or_shorter_than_usual"] = 1
     if s4.get("init") is not True or s5.get("init") is not True or s4["loop"] != "ok" \
             or s5["loop"] != "ok":
         viol.append({"mechanism": "equivalent-installations-do-not-both-initialise",
